@@ -25,10 +25,10 @@ pub fn run(rep: &mut Report, thorough: bool) {
     let exe = std::env::current_exe().unwrap();
     let bin = exe.parent().unwrap().join("c19_child");
     let bin = bin.to_str().unwrap().to_string();
-    let depths: Vec<usize> = if thorough { vec![100, 1_000, 10_000, 100_000] } else { vec![100, 1_000, 10_000] };
+    let depths: Vec<usize> = if thorough { vec![100, 1_000, 10_000, 100_000, 1_000_000] } else { vec![100, 1_000, 10_000, 100_000] };
     let mut sr = StreamReport::new(
         "nesting-depth",
-        "one child process per (construct in {unary minus, not, left-deep binary, right-nested binary, user call, built-in call, list, map, else-chain, index chain, parentheses}, operation in {Expr::parse, Rule::parse, Rule::parse with the construct in a metadata constant, drop, display, clone, ==, evaluate}, depth in {1e2, 1e3, 1e4 (thorough 1e5)}, thread in {main, 2 MiB worker}); the exit status tells whether the process survived; for each crashing pair the threshold is located by bisection",
+        "one child process per (construct in {unary minus, not, left-deep binary, right-nested binary, user call, built-in call, list, map, else-chain, index chain, parentheses}, operation in {Expr::parse, Rule::parse, Rule::parse with the construct in a metadata constant, drop, display, clone, ==, evaluate}, depth in {1e2, 1e3, 1e4, 1e5 (thorough also 1e6)}, thread in {main, 2 MiB worker}); the exit status tells whether the process survived; for each crashing pair the threshold is located by bisection",
         true,
     );
     let mut jobs = vec![];
